@@ -710,6 +710,16 @@ E('sqrt', ['n'], key='sqrt_int', fam='B', tol=2)
 E('sqrt', ['k'], key='sqrt_negint', fam='B', tol=2)
 E('root', ['p', 'i:2:9'], key='root_real_pos', fam='B', tol=4)
 
+# --- large half-integers at high precision: gamma goes through the double-factorial table of libintmath there ---------
+def _halfbig(r, c):
+    return {'t': 'float', 'v': float(r.randint(400, 1300) + 0.5).hex()}
+def _neghalfbig(r, c):
+    return {'t': 'float', 'v': float(-(r.randint(400, 1300) + 0.5)).hex()}
+E('gamma', [_halfbig], key='gamma_halfint_hi', fam='C', tol=8, cost=2, maxprec=2200)
+E('rgamma', [_neghalfbig], key='rgamma_halfint_hi', fam='C', tol=8, cost=2, maxprec=2200)
+E('loggamma', [_halfbig], key='loggamma_halfint_hi', fam='C', tol=8, cost=2, maxprec=2200)
+E('factorial', [_halfbig], key='factorial_halfint_hi', fam='C', tol=8, cost=2, maxprec=2200)
+
 # --- the Riemann-Siegel routines are public entry points of their own (mp.rs_zeta, mp.rs_z), not only internals of zeta/siegelz
 def _rs_arg(r, c):
     k = r.random()
